@@ -8,6 +8,10 @@
 //   X <N*D doubles, sample-major (sample 0 first)>
 // Output (every line flushed):
 //   C <id>                                 marker printed BEFORE the call (a crash/hang belongs to it)
+//   NB <id> <l0> <l1> ... | NB <id> BAD <i> <j> <value>
+//                                          lengths of the neighbour lists find_neighbors returns for this
+//                                          request (only for methods that use neighbours, 3 <= k < N);
+//                                          BAD = an entry that is not a sample index
 //   R <id> OK <rows> <cols> <nonfinite> <rowtie>      returned matrix: shape, #non-finite entries,
 //                                          rowtie = 1 if PassThru output equals the features / n.a. (1)
 //   R <id> EXC <name>                      a documented tapkee exception type
@@ -186,6 +190,45 @@ int main()
         alarm(wd);
         try
         {
+            // the neighbour lists the method is going to use (input of the Coq index-obligation model)
+            const int kk = atoi(kv["k"].c_str());
+            const bool kernel_nb = (kv["m"] == "klle" || kv["m"] == "npe" || kv["m"] == "kltsa" ||
+                                    kv["m"] == "lltsa" || kv["m"] == "hlle");
+            const bool plain_nb = (kv["m"] == "la" || kv["m"] == "lpp" || kv["m"] == "isomap" ||
+                                   kv["m"] == "lisomap" || kv["m"] == "ms" ||
+                                   (kv["m"] == "spe" && kv.count("speg") && kv["speg"] == "0"));
+            if ((kernel_nb || plain_nb) && kk >= 3 && kk < N && kv.count("nbdump"))
+            {
+                typedef std::vector<IndexType>::iterator It;
+                const bool cc = kv.count("cc") ? (kv["cc"] == "1") : true;
+                const NeighborsMethod nmeth = nm == "brute" ? Brute : (nm == "vptree" ? VpTree : CoverTree);
+                tapkee_internal::Neighbors nbs;
+                if (kernel_nb)
+                    nbs = tapkee_internal::find_neighbors(
+                        nmeth, idx.begin(), idx.end(),
+                        tapkee_internal::KernelDistance<It, eigen_kernel_callback>(kcb), (IndexType)kk, cc);
+                else
+                    nbs = tapkee_internal::find_neighbors(
+                        nmeth, idx.begin(), idx.end(),
+                        tapkee_internal::PlainDistance<It, eigen_distance_callback>(dcb), (IndexType)kk, cc);
+                bool bad = false;
+                for (size_t i = 0; i < nbs.size() && !bad; i++)
+                    for (size_t j = 0; j < nbs[i].size(); j++)
+                        if (nbs[i][j] < 0 || nbs[i][j] >= N)
+                        {
+                            printf("NB %ld BAD %zu %zu %d\n", id, i, j, (int)nbs[i][j]);
+                            bad = true;
+                            break;
+                        }
+                if (!bad)
+                {
+                    printf("NB %ld", id);
+                    for (size_t i = 0; i < nbs.size(); i++)
+                        printf(" %zu", nbs[i].size());
+                    printf("\n");
+                }
+                fflush(stdout);
+            }
             TapkeeOutput out = embed(idx.begin(), idx.end(), kcb, dcb, fcb, ps);
             alarm(0);
             long nonfinite = 0;
